@@ -156,6 +156,13 @@ fn frames() -> Vec<(String, Frame)> {
     for n in [0usize, 1, 1000, LIMIT - 100] {
         v.push((format!("Message({n} bytes, headers)"), msg(n, true)));
     }
+    // a header map that is present but empty, and one with empty strings
+    v.push(("Message(3 bytes, empty header map)".into(), Frame::Message(MessagePayload { headers: Some(HashMap::new()), message: Bytes::from_static(b"abc") })));
+    v.push(("Message(0 bytes, empty header map)".into(), Frame::Message(MessagePayload { headers: Some(HashMap::new()), message: Bytes::new() })));
+    v.push(("Message(3 bytes, header with empty key and value)".into(), Frame::Message(MessagePayload { headers: Some(HashMap::from([(String::new(), String::new())])), message: Bytes::from_static(b"abc") })));
+    v.push(("Error(empty message, code 0)".into(), Frame::Error(ErrorPayload { code: 0, message: Bytes::new() })));
+    v.push(("RegisterPublisher(no operations)".into(), Frame::RegisterPublisher(PublisherPayload { topic: topic(), retention_policy: 0, operations: vec![] })));
+    v.push(("BatchMessage(empty)".into(), Frame::BatchMessage(Bytes::new())));
     v
 }
 fn encode(f: &Frame) -> Result<BytesMut, String> {
@@ -208,7 +215,7 @@ fn codec_cases() -> Vec<Case> {
         });
     }
     // chunking: a stream of frames cut at every position of a small window and at coarse positions
-    let stream_frames: Vec<Frame> = vec![msg(3, true), Frame::Ok, Frame::BatchMessage(Bytes::from_static(b"0123456789")), msg(0, false), Frame::Error(ErrorPayload { code: 5, message: Bytes::from_static(b"x") }), msg(300, false)];
+    let stream_frames: Vec<Frame> = vec![msg(3, true), Frame::Message(MessagePayload { headers: Some(HashMap::new()), message: Bytes::from_static(b"e") }), Frame::BatchMessage(Bytes::new()), Frame::Ok, Frame::BatchMessage(Bytes::from_static(b"0123456789")), msg(0, false), Frame::Error(ErrorPayload { code: 5, message: Bytes::from_static(b"x") }), msg(300, false)];
     for chunk in [1usize, 2, 3, 7, 8, 9, 10, 11, 64, 1000] {
         let fs = stream_frames.clone();
         out.push(Case {
